@@ -115,6 +115,12 @@ def build(pendulum, case):
         if case["tzkind"] == "timezone+1":
             return "DateTime-foreign-tz", x.astimezone(dt_.timezone(dt_.timedelta(hours=1), "X")), True
         return "DateTime-foreign-tz", x.astimezone(zoneinfo.ZoneInfo(case["z"])), True
+    if k == "dt-local":
+        # a value in the machine's zone, found by the library from the TZ environment variable of this process
+        assert worker.CTX["config"].get("TZ") == case["TZ"], "dt-local cases are built in a process started with that TZ"
+        if case.get("via") == "local()":
+            return "DateTime-local-zone", pendulum.local(*case["f"]), True
+        return "DateTime-local-zone", pendulum.datetime(*case["f"], tz="local", fold=case["fold"]), True
     if k == "date":
         return "Date", pendulum.Date(*case["f"]), True
     if k == "time":
@@ -183,10 +189,36 @@ def duration_cases():
     return out
 
 
+def _local_cases(tzname):
+    out = []
+    trs = seeds.zone_transitions(tzname)
+    overlaps = [t for t in trs if t[2] < t[1] and 0 < t[0] < 2000000000][-3:]
+    for t, ob, oa in overlaps:
+        mid = seeds.fields_of_wall((t + oa + (ob - oa) // 2) * US + 250000)      # inside the repeated wall interval
+        before = seeds.fields_of_wall((t + oa - 3600) * US)
+        for f in (mid, before):
+            for fold in (0, 1):
+                out.append({"k": "dt-local", "TZ": tzname, "f": list(f), "fold": fold})
+        out.append({"k": "dt-local", "TZ": tzname, "f": list(mid), "fold": 1, "via": "local()"})
+        out.append({"k": "iv", "abs": False, "TZ": tzname, "a": {"k": "dt-local", "TZ": tzname, "f": list(before), "fold": 0},
+                    "b": {"k": "dt-local", "TZ": tzname, "f": list(mid), "fold": 1}})
+    return out
+
+
 def run_shard(shard):
     import pendulum
     acc = core.Acc(ID)
     k = shard["kind"]
+    if k == "local-env":
+        # the machine's zone comes from the environment once per process: run this shard in a process started with it
+        if worker.CTX["config"].get("TZ") != shard["TZ"]:
+            return worker.fresh_call("c14", "run_shard", shard, {"TZ": shard["TZ"]})
+        for case in _local_cases(shard["TZ"]):
+            acc.c["states"] += 1
+            acc.c["nontrivial"] += 1
+            run_case(acc, pendulum, case)
+        acc.sample({"machine_zone_from_TZ_env": shard["TZ"], "values": "both passes of repeated local times, intervals"})
+        return acc.result()
     if k == "zones":
         for z in shard["zones"]:
             trs = seeds.zone_transitions(z)
@@ -265,8 +297,17 @@ def run_shard(shard):
     return acc.result()
 
 
+def _replay_fresh(case):
+    acc = core.Acc(ID)
+    replay_case(case, acc)
+    return acc.result()
+
+
 def replay_case(case, acc):
     import pendulum
+    if case.get("TZ") and worker.CTX["config"].get("TZ") != case["TZ"]:
+        acc.absorb(worker.fresh_call("c14", "_replay_fresh", case, {"TZ": case["TZ"]}))
+        return
     c = {k: v for k, v in case.items() if k != "route"}
     run_case(acc, pendulum, c)
     run_case(acc, pendulum, c, depth2=True)
@@ -282,6 +323,8 @@ def plan(tier, seed):
         shards.append({"kind": "durations", "cases": ch})
     for o0 in range(-1439, 1440, 240):
         shards.append({"kind": "fixed", "o0": o0, "o1": min(1440, o0 + 240)})
+    for tzname in ("Europe/Paris", "America/New_York", "Australia/Lord_Howe"):
+        shards.append({"kind": "local-env", "TZ": tzname})
     # Interval components come from precise_diff: the value seeds that carry intervals also run on the Python twin
     light = [sh for sh in shards if sh["kind"] == "misc"] + shards[seed % 5:40:5]
     return [({"ext": 1, "tz": "sys"}, shards)] + [({"ext": 0, "tz": "pkg"}, shards if thorough else light)]
